@@ -17,7 +17,7 @@ pub fn mk_storage_stub(max_height: u64) -> ChainStorage {
 // makes the keys of the two maps symbolic and did not finish in 25 min); offsets (full-width u64), the
 // queried height and the open/closed pre-state are symbolic.
 macro_rules! get_block_one {
-    ($name:ident, $t:expr, [$f0:expr, $f1:expr, $f2:expr, $f3:expr]) => {
+    ($name:ident, $t:expr, [$f0:expr, $f1:expr, $f2:expr, $f3:expr], $hq:expr) => {
         #[kani::proof]
         #[kani::unwind(8)]
         #[kani::stub(crate::blockchain::proto::script::eval_from_bytes, crate::blockchain::parser::reader::vk_reader_c01::stub_eval)]
@@ -44,8 +44,9 @@ macro_rules! get_block_one {
             files.insert(0, bx::mk_blkfile(0));
             files.insert(1, bx::mk_blkfile(1));
             // arbitrary open/closed pre-state satisfying the invariant for the current height
-            let hq: u64 = kani::any();
-            kani::assume(hq <= T as u64 + 1);
+            // the queried height is part of the shape as well (a symbolic height makes the looked-up file,
+            // hence the BlkFile being opened/closed, a multi-target pointer: no result in 20 min)
+            let hq: u64 = $hq;
             let pre_open: [bool; 2] = kani::any();
             let mut f = 0usize;
             while f < 2 {
@@ -99,28 +100,48 @@ macro_rules! get_block_one {
                     }
                 }
             }
-            kani::cover!(hq == T as u64 + 1, "height past the index");
-            kani::cover!(hq <= T as u64 && off[hq as usize] > u32::MAX as u64, "offset beyond 4 GiB");
-            kani::cover!(hq <= T as u64 && FILE[hq as usize] < 2 && !pre_open[FILE[hq as usize]], "file opened on demand");
-            kani::cover!(hq <= T as u64 && FILE[hq as usize] < 2 && pre_open[FILE[hq as usize]], "file already open");
+            kani::cover!(hq > T as u64 || off[hq as usize] > u32::MAX as u64, "offset beyond 4 GiB");
+            kani::cover!(!pre_open[0] || !pre_open[1], "a file is closed beforehand");
             core::mem::forget(r);
             core::mem::forget(cs);
         }
     };
 }
 
-//@ id=C02,C03,C17,C10 tier=quick name=c02_gbo_01 timeout=1500 role=get_block_one bound=heights-0,1-in-files-0,1;offsets-full-u64;any-open/closed-pre-state fn=ChainStorage::get_block,ChainIndex::get,ChainIndex::max_height_by_blk,BlkFile::open,BlkFile::close
-get_block_one!(c02_gbo_01, 1, [0, 1, 0, 0]);
-//@ id=C02,C03,C17,C10 tier=quick name=c02_gbo_0101 timeout=2400 role=get_block_one bound=heights-0..3-interleaved-in-files-0,1,0,1 mem=20
-get_block_one!(c02_gbo_0101, 3, [0, 1, 0, 1]);
-//@ id=C02,C03,C17,C10 tier=quick name=c02_gbo_12 timeout=1500 role=get_block_one bound=heights-0,1-in-files-1,missing
-get_block_one!(c02_gbo_12, 1, [1, 2, 0, 0]);
-//@ id=C02,C03,C17,C10 tier=thorough name=c02_gbo_0011 timeout=2400 role=get_block_one bound=heights-0..3-disjoint-spans-files-0,0,1,1 mem=20
-get_block_one!(c02_gbo_0011, 3, [0, 0, 1, 1]);
-//@ id=C02,C03,C17,C10 tier=thorough name=c02_gbo_1001 timeout=2400 role=get_block_one bound=heights-0..3-in-files-1,0,0,1(file-1-needed-again-later) mem=20
-get_block_one!(c02_gbo_1001, 3, [1, 0, 0, 1]);
-//@ id=C02,C03,C17,C10 tier=thorough name=c02_gbo_00 timeout=1500 role=get_block_one bound=heights-0,1-in-one-file
-get_block_one!(c02_gbo_00, 1, [0, 0, 0, 0]);
+//@ id=C02,C03,C17,C10 tier=quick name=c02_gbo_01_h0 timeout=1200 role=get_block_one bound=heights-0,1-in-files-0,1,queried-height-0,offsets-full-u64,any-open/closed-pre-state fn=ChainStorage::get_block,ChainIndex::get,ChainIndex::max_height_by_blk,BlkFile::open,BlkFile::close
+get_block_one!(c02_gbo_01_h0, 1, [0, 1, 0, 0], 0);
+//@ id=C02,C03,C17,C10 tier=quick name=c02_gbo_01_h1 timeout=1200 role=get_block_one bound=heights-0,1-in-files-0,1,queried-height-1,offsets-full-u64,any-open/closed-pre-state fn=ChainStorage::get_block,ChainIndex::get,ChainIndex::max_height_by_blk,BlkFile::open,BlkFile::close
+get_block_one!(c02_gbo_01_h1, 1, [0, 1, 0, 0], 1);
+//@ id=C02,C03,C17,C10 tier=quick name=c02_gbo_01_h2 timeout=1200 role=get_block_one bound=heights-0,1-in-files-0,1,queried-height-2,offsets-full-u64,any-open/closed-pre-state fn=ChainStorage::get_block,ChainIndex::get,ChainIndex::max_height_by_blk,BlkFile::open,BlkFile::close
+get_block_one!(c02_gbo_01_h2, 1, [0, 1, 0, 0], 2);
+//@ id=C02,C03,C17,C10 tier=thorough name=c02_gbo_0101_h0 timeout=1200 role=get_block_one bound=heights-0..3-interleaved-in-files-0,1,0,1,queried-height-0,offsets-full-u64,any-open/closed-pre-state fn=ChainStorage::get_block,ChainIndex::get,ChainIndex::max_height_by_blk,BlkFile::open,BlkFile::close
+get_block_one!(c02_gbo_0101_h0, 3, [0, 1, 0, 1], 0);
+//@ id=C02,C03,C17,C10 tier=quick name=c02_gbo_0101_h1 timeout=1200 role=get_block_one bound=heights-0..3-interleaved-in-files-0,1,0,1,queried-height-1,offsets-full-u64,any-open/closed-pre-state fn=ChainStorage::get_block,ChainIndex::get,ChainIndex::max_height_by_blk,BlkFile::open,BlkFile::close
+get_block_one!(c02_gbo_0101_h1, 3, [0, 1, 0, 1], 1);
+//@ id=C02,C03,C17,C10 tier=quick name=c02_gbo_0101_h2 timeout=1200 role=get_block_one bound=heights-0..3-interleaved-in-files-0,1,0,1,queried-height-2,offsets-full-u64,any-open/closed-pre-state fn=ChainStorage::get_block,ChainIndex::get,ChainIndex::max_height_by_blk,BlkFile::open,BlkFile::close
+get_block_one!(c02_gbo_0101_h2, 3, [0, 1, 0, 1], 2);
+//@ id=C02,C03,C17,C10 tier=quick name=c02_gbo_0101_h3 timeout=1200 role=get_block_one bound=heights-0..3-interleaved-in-files-0,1,0,1,queried-height-3,offsets-full-u64,any-open/closed-pre-state fn=ChainStorage::get_block,ChainIndex::get,ChainIndex::max_height_by_blk,BlkFile::open,BlkFile::close
+get_block_one!(c02_gbo_0101_h3, 3, [0, 1, 0, 1], 3);
+//@ id=C02,C03,C17,C10 tier=thorough name=c02_gbo_0101_h4 timeout=1200 role=get_block_one bound=heights-0..3-interleaved-in-files-0,1,0,1,queried-height-4,offsets-full-u64,any-open/closed-pre-state fn=ChainStorage::get_block,ChainIndex::get,ChainIndex::max_height_by_blk,BlkFile::open,BlkFile::close
+get_block_one!(c02_gbo_0101_h4, 3, [0, 1, 0, 1], 4);
+//@ id=C02,C03,C17,C10 tier=quick name=c02_gbo_12_h0 timeout=1200 role=get_block_one bound=heights-0,1-in-files-1,missing,queried-height-0,offsets-full-u64,any-open/closed-pre-state fn=ChainStorage::get_block,ChainIndex::get,ChainIndex::max_height_by_blk,BlkFile::open,BlkFile::close
+get_block_one!(c02_gbo_12_h0, 1, [1, 2, 0, 0], 0);
+//@ id=C02,C03,C17,C10 tier=quick name=c02_gbo_12_h1 timeout=1200 role=get_block_one bound=heights-0,1-in-files-1,missing,queried-height-1,offsets-full-u64,any-open/closed-pre-state fn=ChainStorage::get_block,ChainIndex::get,ChainIndex::max_height_by_blk,BlkFile::open,BlkFile::close
+get_block_one!(c02_gbo_12_h1, 1, [1, 2, 0, 0], 1);
+//@ id=C02,C03,C17,C10 tier=thorough name=c02_gbo_0011_h0 timeout=1200 role=get_block_one bound=heights-0..3-disjoint-spans-files-0,0,1,1,queried-height-0,offsets-full-u64,any-open/closed-pre-state fn=ChainStorage::get_block,ChainIndex::get,ChainIndex::max_height_by_blk,BlkFile::open,BlkFile::close
+get_block_one!(c02_gbo_0011_h0, 3, [0, 0, 1, 1], 0);
+//@ id=C02,C03,C17,C10 tier=thorough name=c02_gbo_0011_h1 timeout=1200 role=get_block_one bound=heights-0..3-disjoint-spans-files-0,0,1,1,queried-height-1,offsets-full-u64,any-open/closed-pre-state fn=ChainStorage::get_block,ChainIndex::get,ChainIndex::max_height_by_blk,BlkFile::open,BlkFile::close
+get_block_one!(c02_gbo_0011_h1, 3, [0, 0, 1, 1], 1);
+//@ id=C02,C03,C17,C10 tier=thorough name=c02_gbo_0011_h2 timeout=1200 role=get_block_one bound=heights-0..3-disjoint-spans-files-0,0,1,1,queried-height-2,offsets-full-u64,any-open/closed-pre-state fn=ChainStorage::get_block,ChainIndex::get,ChainIndex::max_height_by_blk,BlkFile::open,BlkFile::close
+get_block_one!(c02_gbo_0011_h2, 3, [0, 0, 1, 1], 2);
+//@ id=C02,C03,C17,C10 tier=thorough name=c02_gbo_0011_h3 timeout=1200 role=get_block_one bound=heights-0..3-disjoint-spans-files-0,0,1,1,queried-height-3,offsets-full-u64,any-open/closed-pre-state fn=ChainStorage::get_block,ChainIndex::get,ChainIndex::max_height_by_blk,BlkFile::open,BlkFile::close
+get_block_one!(c02_gbo_0011_h3, 3, [0, 0, 1, 1], 3);
+//@ id=C02,C03,C17,C10 tier=thorough name=c02_gbo_1001_h0 timeout=1200 role=get_block_one bound=heights-0..3-in-files-1,0,0,1(file-1-needed-again-later),queried-height-0,offsets-full-u64,any-open/closed-pre-state fn=ChainStorage::get_block,ChainIndex::get,ChainIndex::max_height_by_blk,BlkFile::open,BlkFile::close
+get_block_one!(c02_gbo_1001_h0, 3, [1, 0, 0, 1], 0);
+//@ id=C02,C03,C17,C10 tier=thorough name=c02_gbo_1001_h1 timeout=1200 role=get_block_one bound=heights-0..3-in-files-1,0,0,1(file-1-needed-again-later),queried-height-1,offsets-full-u64,any-open/closed-pre-state fn=ChainStorage::get_block,ChainIndex::get,ChainIndex::max_height_by_blk,BlkFile::open,BlkFile::close
+get_block_one!(c02_gbo_1001_h1, 3, [1, 0, 0, 1], 1);
+//@ id=C02,C03,C17,C10 tier=thorough name=c02_gbo_1001_h3 timeout=1200 role=get_block_one bound=heights-0..3-in-files-1,0,0,1(file-1-needed-again-later),queried-height-3,offsets-full-u64,any-open/closed-pre-state fn=ChainStorage::get_block,ChainIndex::get,ChainIndex::max_height_by_blk,BlkFile::open,BlkFile::close
+get_block_one!(c02_gbo_1001_h3, 3, [1, 0, 0, 1], 3);
 
 // ---- C09 verify_iff ---------------------------------------------------------------------------
 // ChainStorage::verify(block, h): Ok iff computed merkle root == header root and (h == 0: header hash
